@@ -10,11 +10,11 @@ delivered is allowed.
 Verdicts: delivery the judge forbids / control connection broken / connection never released / crash / hang
 => VIOLATION with replay; model differences without a property violation => correspondence (no-failing-input-found).
 """
-import os, re, json, time, shutil, tempfile
+import os, re, json, time, shutil, tempfile, subprocess, shlex
 from .. import core, lean, build, extract
 
 PROP = "C11"
-MODULES = ["NngModel.Props.C11"]
+MODULES = ["NngModel.Props.C11", "NngModel.Props.C11Net"]
 
 STREAM = ["tcp", "ipc", "sfd"]
 PROTOS = [("pair0", 0), ("pair1", 0), ("rep", 0), ("req", 0), ("sub", 0), ("pull", 0), ("bus", 0), ("surveyor", 0),
@@ -807,6 +807,99 @@ def run_udp(exe, seed, tier, n_sessions, stats, viol, corr, replay_groups=None):
     return len(groups)
 
 
+# ---- SP/UDP: the shared resources of a listener (C11T): the peer table against NNG_UDP_MAX_PEERS, and the special scenarios
+#      of harness/r_udp6.c (colliding IPv6 address hashes, the inactivity timer)
+def run_udp_limit(exe, stats, viol, corr):
+    """fill the listener's peer table with well-formed CREQs from max_peers - 1 senders (the control peer holds one association);
+    the Lean association model (`udps` with others = max_peers) predicts what a newcomer gets: DISC(NOBUF), no pipe, its DATA
+    ignored; every existing association must keep working; after the senders leave a newcomer is admitted again."""
+    cfg = Cfg("udp", "pull", 0, "def", 1 << 30)
+    maxp = extract.read_generated("C11B").get("c11bUdpMaxPeers", (1024, ""))[0]
+    creq, disc = udp_hdr(1, PEER["pull"], 65000, 5), udp_hdr(3, PEER["pull"], 0, 0)
+    data = udp_hdr(0, PEER["pull"], 2, 0) + b"hi"
+    full = {"id": "lim-full", "nsrc": 1, "busy": False, "kinds": ["creq-at-limit", "data-refused-sender"], "dgs": [(0, creq), (0, data)]}
+    free = {"id": "lim-free", "nsrc": 1, "busy": False, "kinds": ["creq", "valid", "end-disc"], "dgs": [(0, creq), (0, data), (0, disc)]}
+    q = [f"udps 0 pull 0 {TTL} - 0 {maxp} " + " ".join(f"{a}:{hx(d)}" for a, d in full["dgs"]),
+         f"udps 0 pull 0 {TTL} - 0 1 " + " ".join(f"{a}:{hx(d)}" for a, d in free["dgs"])]
+    ans = ask_lean("hostile-model", q)
+    for s_, a_ in zip((full, free), ans):
+        s_["model"] = parse_udp_model(a_, len(s_["dgs"]))
+        if s_["model"] is None:
+            raise RuntimeError(f"hostile-model udps (peer limit): {a_[:200]}")
+    lines = [cfg.open_line(), f"dhold h {maxp - 1} {hx(creq)}", "ctl", udp_harness_line(full), "ctl", "dfree h", udp_harness_line(free), "close"]
+    r = core.run_stream([exe], "\n".join(lines) + "\n", env=build.env(), timeout=600)
+    out = r.lines
+    stats["udp_limit"] = {"max_peers": maxp, "model_at_limit": [m["act"] + "/" + (",".join(m["replies"]) or "-") for m in full["model"]]}
+    if r.rc != 0 or not out or out[-1] != "bye":
+        viol.append({"kind": "hang (watchdog / timeout)" if r.rc in (86, -999) else "sanitizer report / crash / unclean exit", "cfg": cfg.key,
+                     "rc": r.rc, "stderr": errtext(r.err), "lines": lines, "all_lines": lines, "at": "peer-limit scenario"})
+        stats["crashes"] += 1
+        return
+    got = {}
+    for l in out:
+        m = re.match(r"dgram (\S+) rx=(\S+) wt=(\d+) rt=(\d+) ctl=(\S+) ports=\S+ pipes=\S+ n=(\d+)", l)
+        if m:
+            got[m.group(1)] = {"rx": [] if m.group(2) == "-" else m.group(2).split(","), "wt": int(m.group(3)), "ctl": m.group(5), "n": int(m.group(6))}
+    mh = re.search(r"dhold h opened=(\d+) cack=(\d+) nobuf=(\d+) other=(\d+) add=(\d+)", "\n".join(out))
+    mf = re.search(r"dfree h n=(\d+) rem=(\d+)", "\n".join(out))
+    if not mh or not mf or [l for l in out if l.startswith("ctl ")] != ["ctl ok", "ctl ok"] or any(g["ctl"] != "ok" for g in got.values()):
+        viol.append({"kind": "control connection broken by a hostile session", "cfg": cfg.key, "lines": lines, "all_lines": lines,
+                     "at": "an established association stopped working while the listener's peer table was full",
+                     "failing_output": [l[:200] for l in out if "FAIL" in l or l.startswith("ctl")][:6]})
+        return
+    stats["udp_limit"].update({"held": int(mh.group(1)), "admitted": int(mh.group(2)), "refused_while_filling": int(mh.group(3)),
+                               "released": int(mf.group(2))})
+    if int(mh.group(2)) != maxp - 1 or int(mh.group(5)) != maxp - 1 or int(mf.group(2)) != maxp - 1:
+        corr.append({"what": "udp peer limit: admitted / released associations differ from NNG_UDP_MAX_PEERS - 1", "cfg": cfg.key,
+                     "model": maxp - 1, "impl": [mh.group(0), mf.group(0)]})
+    for s_ in (full, free):
+        g = got.get(s_["id"])
+        mrx = [x for m in s_["model"] for x in m["replies"]]
+        nd = sum(1 for m in s_["model"] if m["deliver"])
+        if not g or g["rx"] != mrx or g["wt"] or g["n"] != nd:
+            corr.append({"what": "udp answers (CACK / DISC reasons) or pipe events differ from the model", "cfg": cfg.key, "session": strip_udp(s_),
+                         "model": [mrx, nd], "impl": g})
+    stats["executed"] += 2
+    stats["udp_newcomer_refused_at_limit"] = 1 if got.get("lim-full", {}).get("rx") == ["d8"] else 0
+
+
+def udpx_cmd(exe6):
+    """harness/r_udp6.c wants ::1 and ::1:0:0:1 on lo: a private network namespace (nothing of the host is changed); without
+    the privilege the harness reports SKIP for what needs the second address"""
+    if shutil.which("unshare") and shutil.which("ip"):
+        try:
+            if subprocess.run(["unshare", "-n", "true"], capture_output=True, timeout=20).returncode == 0:
+                return ["unshare", "-n", "sh", "-c", "ip link set lo up; ip -6 addr add ::1:0:0:1/128 dev lo nodad; exec " + shlex.quote(exe6)]
+        except Exception:
+            pass
+    return [exe6]
+
+
+UDPX_KINDS = {"lost_association": "a peer's disconnect made nng lose another peer's SP/UDP association (colliding address hashes)",
+              "silent_peer": "an inactive SP/UDP association is never reaped (inactivity timer dead or spinning)",
+              "stale_entry": "an inactive SP/UDP association is never reaped (inactivity timer dead or spinning)"}
+
+
+def run_udpx(exe6, path, ls, stats, viol):
+    r = core.run_stream(udpx_cmd(exe6), "\n".join(ls) + "\n", env=build.env(), timeout=300)
+    name = os.path.basename(path)
+    if path.endswith(".json"):
+        name = (json.load(open(path)).get("detail") or {}).get("at") or name
+    if any(" SKIP" in l or l.startswith("open SKIP") for l in r.lines) and r.rc == 0:
+        stats.setdefault("udpx_skipped", []).append(name)
+        return
+    stats.setdefault("udpx_run", []).append(name)
+    if r.rc != 0 or not r.lines or r.lines[-1] != "bye":
+        viol.append({"kind": "hang (watchdog / timeout)" if r.rc in (86, -999) else "sanitizer report / crash / unclean exit", "cfg": "udp6:pull:def",
+                     "rc": r.rc, "stderr": errtext(r.err), "lines": ls, "all_lines": ls, "at": name, "harness": "r_udp6 (in a private network namespace)"})
+        stats["crashes"] += 1
+    elif any("FAIL" in l for l in r.lines):
+        kind = next((v_ for k_, v_ in UDPX_KINDS.items() if k_ in name), "SP/UDP scenario: the implementation differs from what the specification demands")
+        viol.append({"kind": kind, "cfg": "udp6:pull:def", "lines": ls, "all_lines": ls, "at": name, "harness": "r_udp6 (in a private network namespace)",
+                     "failing_output": [l[:200] for l in r.lines if "FAIL" in l][:4]})
+
+
+
 def strip_udp(s):
     return {"id": s["id"], "kinds": s["kinds"], "datagrams": [[src, d.hex()] for src, d in s["dgs"]], "nsrc": s["nsrc"],
             "busy": s["busy"], "model": [f"{m['act']}/{','.join(m['replies']) or '-'}/{m['adds']}/{m['reaps']}" for m in s.get("model") or []]}
@@ -1359,6 +1452,10 @@ def run(tier, seed, replay=None):
         path = cf_ if os.path.isabs(cf_) else os.path.join(cdir, cf_)
         ls = json.load(open(path))["harness_lines"] if path.endswith(".json") else \
             [l.strip() for l in open(path) if l.strip() and not l.startswith("#")]
+        if ls and ls[0].startswith("open udp6"):
+            if "udpx" not in os.environ.get("C11_SKIP", ""):
+                run_udpx(build.harness("r_udp6", ["r_udp6.c"]), path, ls, stats, viol)
+            continue
         bad = None
         for attempt in range(3 if not path.endswith(".json") else 1):
             r = core.run_stream([exe], "\n".join(ls) + "\n", env=build.env(), timeout=300)
@@ -1392,6 +1489,8 @@ def run(tier, seed, replay=None):
     nu = nw = nws = 0
     if (not replay and "udp" not in skip) or udp_replay:
         nu = run_udp(exe, seed, tier, 700 if quick else 24000, stats, viol, corr, udp_replay)
+        if not udp_replay:
+            run_udp_limit(exe, stats, viol, corr)
     t2 = time.time()
     if (not replay and "ws" not in skip) or ws_replay:
         nw, nws = run_ws(exe, seed, tier, 540 if quick else 18000, 6 if quick else 90, stats, viol, corr, ws_replay)
@@ -1434,8 +1533,15 @@ def run(tier, seed, replay=None):
     if stats.get("ws_pipe_not_released"):
         v.known_finding(f"ws-pipe-not-released: in {stats['ws_pipe_not_released']} ws:// session(s) nng closed the TCP connection after the peer's "
                         "FIN but the pipe was not removed within the wait (it goes away when the socket closes); see integration/C11B.md (e)")
+    if stats.get("udp_newcomer_refused_at_limit"):
+        core.log(PROP, "observation (documented 'Peer Admission' bound, not a C11 violation): with NNG_UDP_MAX_PEERS associations up "
+                        f"({stats['udp_limit']['held']} well-formed 8-byte CREQs from distinct source ports + the control peer) a new well-behaved peer is refused "
+                        "with DISC(NOBUF) as the Lean model predicts (C11Net.peer_limit_refuses_newcomer); established associations kept working; after the "
+                        "senders left the newcomer was admitted")
+    if stats.get("udpx_skipped"):
+        core.log(PROP, "SP/UDP IPv6 scenarios NOT run (no private network namespace / second loopback address): " + ", ".join(stats["udpx_skipped"]))
     if stats.get("pair_second_connection_anomalies"):
-        v.known_finding(f"observation outside C11: in {stats['pair_second_connection_anomalies']} session(s) a PAIR socket served a second "
+        core.log(PROP, f"observation outside C11: in {stats['pair_second_connection_anomalies']} session(s) a PAIR socket served a second "
                         "connection while its peer was connected (exclusivity is property C08; what it delivered was still judged here)")
     if not found_input:
         if corr:
@@ -1448,7 +1554,7 @@ def run(tier, seed, replay=None):
     distinct = len({(g[0].key, tuple(s["chunks"])) for g in groups for s in g[1]})
     cov = {
         "obligations": len(st.theorems), "discharged": len(st.discharged),
-        "checker_cmd": "lake build NngModel.Props.C11 && lake env lean <#print axioms for each theorem>",
+        "checker_cmd": "lake build NngModel.Props.C11 NngModel.Props.C11Net && lake env lean <#print axioms for each theorem>",
         "trusted_base": ["Lean 4.33.0 kernel", "axioms: " + ", ".join(sorted({a for x in st.axioms.values() if x for a in x})),
                          "vlib/extract_c01.py + extract_c11.py (handshake bytes, header widths, NNI_MAX_STREAM_MSGSZ, ipc type byte, default "
                          "RECVMAXSZ, protocol numbers, place of the peer-protocol test, SP/UDP header layout and limits)",
@@ -1473,6 +1579,8 @@ def run(tier, seed, replay=None):
                  "model_outcome": stats["model_outcome"], "impl_outcome": stats["impl_outcome"], "end_modes": stats["modes"],
                  "rcvmax": stats["rcvmax"], "pair_lost_on_disconnect": stats.get("lost_on_disconnect", 0),
                  "pair_second_connection_anomalies": stats.get("pair_second_connection_anomalies", 0),
+                 "udp_peer_limit": stats.get("udp_limit"), "udp6_scenarios_run": stats.get("udpx_run", []),
+                 "udp6_scenarios_skipped": stats.get("udpx_skipped", []),
                  "udp": {"sessions": stats.get("udp_sessions", 0), "datagrams": stats.get("udp_datagrams", 0),
                          "payloads_delivered": stats.get("udp_delivered", 0), "flood_senders": stats.get("udp_flood_senders", 0),
                          "datagram_kind -> model decision": stats["udp_kinds"]},
